@@ -158,12 +158,16 @@ def detect(base, cur_inv, cur_txt):
         cands = []
         for n in new:
             cn = c_fns[n]
-            if cn['kind'] != bm['kind'] or (cn['trait'] or None) != (bm['trait'] or None):
+            if (cn['trait'] or None) != (bm['trait'] or None):
                 continue
+            if cn['kind'] != bm['kind'] and not (segs(n)[-1:] == segs(m)[-1:] and not cn['trait']):
+                continue      # (a free function that became an inherent method, or the reverse, keeps its name and signature)
             sr = _seg_renames(m, n)
             if not sr:
-                continue
-            sig_n = _sub(cn['sig'], sr)
+                if segs(n)[-1:] != segs(m)[-1:] or n == m:
+                    continue
+                sr = []       # same name at another depth of the module tree: a move, mapped by full path below
+            sig_n = _sub(cn['sig'], sr) if cn['kind'] == bm['kind'] else cn['sig']
             if sig_n != bm['sig']:
                 continue
             a, b = set(bm['callees']), set(_sub(c, sr) for c in cn['callees'])
@@ -171,8 +175,9 @@ def detect(base, cur_inv, cur_txt):
             cands.append((j, n, sr))
         cands.sort(reverse=True)
         if cands and cands[0][0] >= 0.5 and (len(cands) == 1 or cands[0][0] - cands[1][0] >= 0.2):
-            if not accept(cands[0][2], 'function %s has the signature, impl and callees of %s' % (cands[0][1], m)):
-                if segs(cands[0][1])[-1:] == segs(m)[-1:]:
+            same_last = segs(cands[0][1])[-1:] == segs(m)[-1:]
+            if same_last or not accept(cands[0][2], 'function %s has the signature, impl and callees of %s' % (cands[0][1], m)):
+                if same_last:
                     paths.append((cands[0][1], m))
                     log.append('%s moved to %s (same name, signature and callees; the full path is mapped back)' % (m, cands[0][1]))
     return list(ren.items()), log, structured, paths
